@@ -495,7 +495,8 @@ class TaskScenario(ScenarioData):
                                 dep_time_idx = self.project.dateToIdx(dep_time)
                                 # Skip gap_slots of working time
                                 working_slots = 0
-                                while working_slots < gap_slots:
+                                gap_limit = self.project.dateToIdx(self.project["end"])
+                                while working_slots < gap_slots and dep_time_idx <= gap_limit:
                                     if self.isWorkingTime(dep_time_idx):
                                         working_slots += 1
                                     dep_time_idx += 1
@@ -572,7 +573,10 @@ class TaskScenario(ScenarioData):
 
                 if end_date:
                     # For ALAP, start from the last working slot BEFORE the end date
-                    self.currentSlotIdx = self.project.dateToIdx(end_date) - 1
+                    # (a deadline beyond the horizon is met by finishing inside the horizon)
+                    self.currentSlotIdx = (
+                        min(self.project.dateToIdx(end_date), self.project.dateToIdx(self.project["end"])) - 1
+                    )
                     # Find the last working slot
                     # For effort tasks with allocations, check resource availability
                     # (respects resource timezone and working hours)
@@ -623,6 +627,11 @@ class TaskScenario(ScenarioData):
         delta = 1 if forward else -1
         lowerLimit = self.project.dateToIdx(self.project["start"])
         upperLimit = self.project.dateToIdx(self.project["end"])
+
+        if self.currentSlotIdx < lowerLimit or self.currentSlotIdx > upperLimit:
+            # The pinned date or dependency bound lies outside the scheduling horizon
+            self.isRunAway = True
+            return False
 
         previous_effort = self.doneEffort
         while self.scheduleSlot():
